@@ -1,4 +1,5 @@
 (* Lemmas for C19 (gradients equal true derivatives). *)
+From Coq Require Import Qround.
 From TFL Require Import Model.Gradients.
 Open Scope Q_scope.
 
@@ -220,3 +221,284 @@ Proof. intros H. unfold hyper_weights. destruct (all_two sizes && negb as_list) 
     assert (E1 : qnat 2 - 1 == 1) by reflexivity. rewrite E1 in Hx. exact Hx.
   - apply outer_convex. clear E. induction H as [|s xi sizes x [Hs Hx] _ IH]; cbn [map2]; constructor.
     apply w1d_convex; [lia|exact Hx]. exact IH. Qed.
+
+(* ------------------------------------------------------------------ *)
+(* Lattice, simplex interpolation                                      *)
+(* ------------------------------------------------------------------ *)
+(* gather + weighted sum is linear in the gathered kernel: the derivative
+   w.r.t. kernel entry v is the total weight of the terms that gather v *)
+Lemma sp_eval_gradient ts K v h :
+  sp_eval ts (fun u => K u + (if Z.eqb u v then h else 0)) - sp_eval ts K == h * sp_weight ts v.
+Proof. unfold sp_eval, sp_weight. induction ts as [|[i a] ts IH]; cbn [map qsum fst snd]. ring.
+  destruct (Z.eqb i v); lra. Qed.
+
+Lemma simplex_terms_sum l : forall prev idx, qsum (map snd (simplex_terms prev idx l)) == prev.
+Proof. induction l as [|[r s] l IH]; intros prev idx; cbn [simplex_terms map qsum snd]. ring.
+  rewrite IH. ring. Qed.
+
+(* descending chain below [prev], ending above 0 *)
+Fixpoint chain (prev : Q) (l : list (Q * Z)) : Prop :=
+  match l with [] => 0 <= prev | p :: l' => fst p <= prev /\ chain (fst p) l' end.
+Lemma simplex_terms_nonneg l : forall prev idx, chain prev l ->
+  forall p, In p (simplex_terms prev idx l) -> 0 <= snd p.
+Proof. induction l as [|[r s] l IH]; intros prev idx H p Hp; cbn [simplex_terms chain fst] in *.
+  - destruct Hp as [<-|[]]. exact H.
+  - destruct H as [H1 H2]. destruct Hp as [<-|Hp]. cbn [snd]. lra. exact (IH r _ H2 p Hp). Qed.
+Lemma ins_chain p l : forall prev, chain prev l -> 0 <= fst p -> fst p <= prev -> chain prev (ins_desc p l).
+Proof. induction l as [|q l IH]; intros prev H H0 H1; cbn [ins_desc chain] in *. split; assumption.
+  destruct H as [Hq Hl]. destruct (Qle_bool (fst q) (fst p)) eqn:E; cbn [chain].
+  - apply Qle_bool_iff in E. repeat split; assumption.
+  - apply (qle_false (fst q) (fst p)) in E. split. exact Hq. apply IH; [exact Hl|exact H0|lra]. Qed.
+Lemma sort_chain l : (forall p, In p l -> 0 <= fst p /\ fst p <= 1) -> chain 1 (sort_desc l).
+Proof. induction l as [|p l IH]; intros H; cbn [sort_desc fold_right]. cbn; lra.
+  destruct (H p (or_introl eq_refl)). apply ins_chain; try assumption.
+  apply IH. intros q Hq. apply H. right; exact Hq. Qed.
+
+(* truncation toward zero is the floor for non-negative rationals *)
+Lemma trunc_floor x : 0 <= x -> trunc x = Qfloor x.
+Proof. intros H. unfold trunc. destruct x as [n d]. cbn [Qnum Qden Qfloor]. apply Z.quot_div_nonneg.
+  unfold Qle in H; cbn in H. lia. reflexivity. Qed.
+Lemma qnat_inject s : inject_Z (Z.of_nat s - 2) == qnat s - 2.
+Proof. unfold qnat, Z.sub. rewrite inject_Z_plus, inject_Z_opp. reflexivity. Qed.
+
+Definition in01 (r : Q) : Prop := 0 <= r /\ r <= 1.
+Lemma residual_ok all2 s xi : (2 <= s)%nat -> (all2 = true -> s = 2%nat) ->
+  0 <= xi -> xi <= qnat s - 1 -> in01 (xi - inject_Z (corner all2 s xi)).
+Proof. intros Hs H2 H0 H1. unfold corner, in01. destruct all2.
+  - rewrite (H2 eq_refl) in H1. assert (E : qnat 2 - 1 == 1) by reflexivity. rewrite E in H1.
+    assert (E0 : inject_Z 0 == 0) by reflexivity. rewrite E0. lra.
+  - rewrite trunc_floor by exact H0. pose proof (Qfloor_le xi) as Hf. pose proof (Qlt_floor xi) as Hg.
+    rewrite inject_Z_plus in Hg. assert (E1 : inject_Z 1 == 1) by reflexivity. rewrite E1 in Hg.
+    destruct (Z.min_spec (Qfloor xi) (Z.of_nat s - 2)) as [[Hlt ->]|[Hge ->]].
+    + lra.
+    + rewrite Zle_Qle in Hge. rewrite qnat_inject in *. lra. Qed.
+
+Definition simplex_ok_dim (clip all2 : bool) (s : nat) (xi : Q) : Prop :=
+  (2 <= s)%nat /\ (all2 = true -> s = 2%nat) /\ (clip = true \/ (0 <= xi /\ xi <= qnat s - 1)).
+
+Lemma residuals_ok clip all2 sizes x : Forall2 (simplex_ok_dim clip all2) sizes x ->
+  Forall in01 (map2 (fun xi c => xi - inject_Z c) (if clip then map2 clip_lat sizes x else x)
+                    (map2 (corner all2) sizes (if clip then map2 clip_lat sizes x else x))).
+Proof. intros H. destruct clip.
+  - induction H as [|s xi sizes x [Hs [H2 _]] _ IH]; cbn [map2]; constructor; [|exact IH].
+    destruct (clip_lat_range s xi); [lia|]. apply residual_ok; assumption.
+  - induction H as [|s xi sizes x [Hs [H2 Hx]] _ IH]; cbn [map2]; constructor; [|exact IH].
+    destruct Hx as [Hx|[H0 H1]]; [discriminate|]. apply residual_ok; assumption. Qed.
+
+Lemma Forall2_impl_In {A B} (P R : A -> B -> Prop) l l' :
+  Forall2 P l l' -> (forall a b, In a l -> P a b -> R a b) -> Forall2 R l l'.
+Proof. induction 1 as [|a b l l' Hab _ IH]; intros H; constructor.
+  apply H; [left; reflexivity|exact Hab]. apply IH. intros; apply H; [right|]; assumption. Qed.
+
+Lemma lattice_point_simplex_ok clip sizes x : lattice_point_ok clip sizes x ->
+  Forall2 (simplex_ok_dim clip (all_two sizes)) sizes x.
+Proof. intros H. apply (Forall2_impl_In _ _ _ _ H). intros s xi Hin [Hs Hx]. repeat split; try assumption.
+  intros E. unfold all_two in E. rewrite forallb_forall in E. specialize (E s Hin). apply Nat.eqb_eq in E. congruence. Qed.
+
+Lemma simplex_sparse_convex clip sizes x : lattice_point_ok clip sizes x ->
+  (forall p, In p (simplex_sparse clip sizes x) -> 0 <= snd p) /\
+  qsum (map snd (simplex_sparse clip sizes x)) == 1.
+Proof. intros H. unfold simplex_sparse. split; [|apply simplex_terms_sum].
+  apply simplex_terms_nonneg. apply sort_chain. intros [r s] Hp. apply in_combine_l in Hp. cbn [fst].
+  pose proof (residuals_ok clip (all_two sizes) sizes x (lattice_point_simplex_ok _ _ _ H)) as HF.
+  rewrite Forall_forall in HF. exact (HF r Hp). Qed.
+
+(* ------------------------------------------------------------------ *)
+(* PWLCalibration                                                      *)
+(* ------------------------------------------------------------------ *)
+Lemma dot_app a : forall b c d, length a = length b -> dot (a ++ c) (b ++ d) == dot a b + dot c d.
+Proof. induction a as [|x a IH]; intros [|y b] c d H; cbn in H; try discriminate; cbn [app dot]. ring.
+  rewrite IH by congruence. ring. Qed.
+Lemma dot_map_sub wl ws : forall hs, length ws = length hs ->
+  dot (map (fun a => a - wl) ws) hs == dot ws hs - wl * qsum hs.
+Proof. induction ws as [|a ws IH]; intros [|k hs] H; cbn in H; try discriminate; cbn [map dot qsum]. ring.
+  rewrite IH by congruence. ring. Qed.
+Lemma cyclic_fold_snoc wb whs wl : cyclic_fold (wb :: whs ++ [wl]) = wb :: map (fun a => a - wl) whs.
+Proof. unfold cyclic_fold. rewrite removelast_last. rewrite app_length. cbn [length].
+  replace (length whs + 1 - 1)%nat with (length whs) by lia.
+  rewrite app_nth2 by lia. rewrite Nat.sub_diag. reflexivity. Qed.
+Lemma snoc_decomp {A} (l : list A) n : length l = S n -> exists l' a, l = l' ++ [a] /\ length l' = n.
+Proof. intros H. destruct (exists_last (l := l)) as [l' [a E]]. intros ->; discriminate.
+  exists l', a. split. exact E. subst l. rewrite app_length in H. cbn in H. lia. Qed.
+
+(* the cyclic calibrator, whose last height is minus the sum of the others, is
+   again a weighted sum of the free kernel entries, with the folded weights *)
+Lemma cyclic_dot w K : K <> [] -> length w = S (length K) ->
+  dot w (K ++ [- qsum (tl K)]) == dot (cyclic_fold w) K.
+Proof. intros HK Hl. destruct K as [|b hs]; [congruence|]. destruct w as [|wb w']; [discriminate|].
+  cbn [length] in Hl. injection Hl as Hl. destruct (snoc_decomp w' (length hs) Hl) as [whs [wl [-> Hw]]].
+  rewrite cyclic_fold_snoc. cbn [tl app dot]. rewrite dot_app by exact Hw. rewrite dot_map_sub by exact Hw.
+  cbn [dot]. ring. Qed.
+
+Lemma pwl_weights_length kps lens x : length kps = length lens -> length (pwl_weights kps lens x) = S (length kps).
+Proof. intros H. unfold pwl_weights. cbn [length]. rewrite map2_length, <- H, Nat.min_id. reflexivity. Qed.
+Lemma cyclic_fold_length w n : length w = S (S n) -> length (cyclic_fold w) = S n.
+Proof. destruct w as [|b [|h hs]]; try discriminate. intros H. cbn [length] in H.
+  unfold cyclic_fold. cbn [length]. rewrite map_length, removelast_firstn_len, firstn_length. cbn [length]. lia. Qed.
+
+Lemma pwl_kernel_gradient (cyclic : bool) m mo kps lens (K : list Q) x v h :
+  length kps = length lens -> K <> [] ->
+  length K = (if cyclic then length kps else S (length kps)) -> (v < length K)%nat ->
+  pwl_eval cyclic m mo kps lens (set_nth v (nth v K 0 + h) K) x - pwl_eval cyclic m mo kps lens K x
+  == h * nth v (pwl_kernel_weights cyclic m kps lens x) 0.
+Proof. intros Hl HK HlK Hv. unfold pwl_eval, pwl_kernel_weights.
+  pose proof (pwl_weights_length kps lens x Hl) as Hw. set (w := pwl_weights kps lens x) in *.
+  destruct cyclic.
+  - assert (HK' : set_nth v (nth v K 0 + h) K <> []).
+    { intros E. apply (f_equal (@length Q)) in E. rewrite set_nth_length in E. destruct K; [congruence|discriminate]. }
+    rewrite (cyclic_dot w (set_nth v (nth v K 0 + h) K)) by (try rewrite set_nth_length; congruence).
+    rewrite (cyclic_dot w K) by congruence.
+    rewrite nth_map_Q.
+    2:{ destruct K as [|k0 K0]; [congruence|]. cbn [length] in *.
+        rewrite (cyclic_fold_length w (length K0)) by lia. lia. }
+    rewrite Qred_correct, dot_set_nth by exact Hv. ring.
+  - rewrite nth_map_Q by lia. rewrite Qred_correct, dot_set_nth by exact Hv. ring. Qed.
+
+(* ------------------------------------------------------------------ *)
+(* CategoricalCalibration                                              *)
+(* ------------------------------------------------------------------ *)
+Lemma cat_weights_nth nb default i b : (b < nb)%nat ->
+  nth b (cat_weights nb default i) 0 = if Z.eqb (Z.of_nat b) (cat_index nb default i) then 1 else 0.
+Proof. intros H. unfold cat_weights. apply nth_map_seq. exact H. Qed.
+Lemma cat_kernel_gradient nb default i K b h : (b < nb)%nat -> (b < length K)%nat ->
+  lin_eval (cat_weights nb default i) (set_nth b (nth b K 0 + h) K) - lin_eval (cat_weights nb default i) K
+  == h * (if Z.eqb (Z.of_nat b) (cat_index nb default i) then 1 else 0).
+Proof. intros Hb HK. rewrite lin_eval_gradient by exact HK. rewrite cat_weights_nth by exact Hb. reflexivity. Qed.
+
+(* ------------------------------------------------------------------ *)
+(* Kronecker-factored lattice: chain rule through grad_fn              *)
+(* ------------------------------------------------------------------ *)
+Lemma kfl_dots_set_K ws : forall K d row, (d < length K)%nat -> (d < length ws)%nat ->
+  kfl_dots ws (set_nth_g d row K) = set_nth d (dot (nth d ws []) row) (kfl_dots ws K).
+Proof. unfold kfl_dots. induction ws as [|w ws IH]; intros [|Kd K] [|d] row HK Hw; cbn in HK, Hw; try lia;
+  cbn [set_nth_g map2 set_nth nth]. reflexivity. rewrite IH by lia. reflexivity. Qed.
+Lemma kfl_dots_set_ws ws : forall K d w', (d < length K)%nat -> (d < length ws)%nat ->
+  kfl_dots (set_nth_g d w' ws) K = set_nth d (dot w' (nth d K [])) (kfl_dots ws K).
+Proof. unfold kfl_dots. induction ws as [|w ws IH]; intros [|Kd K] [|d] w' HK Hw; cbn in HK, Hw; try lia;
+  cbn [set_nth_g map2 set_nth nth]. reflexivity. rewrite IH by lia. reflexivity. Qed.
+Lemma kfl_dots_length ws K : length (kfl_dots ws K) = Nat.min (length ws) (length K).
+Proof. apply map2_length. Qed.
+Lemma kfl_dots_nth ws K d : (d < length ws)%nat -> (d < length K)%nat ->
+  nth d (kfl_dots ws K) 0 = dot (nth d ws []) (nth d K []).
+Proof. intros. unfold kfl_dots. apply nth_map2; assumption. Qed.
+
+(* replacing factor d of the product by v *)
+Lemma prod_replace t d v : (d < length t)%nat ->
+  prod (set_nth d v t) - prod t == (v - nth d t 0) * nth d (grad_prod t) 0.
+Proof. intros H. rewrite prod_set_nth by exact H. rewrite (prod_split t d H) at 1.
+  rewrite grad_prod_others by exact H. ring. Qed.
+
+Lemma kfl_term_kernel_gradient ws scale K d k h :
+  (d < length K)%nat -> (d < length ws)%nat -> (k < length (nth d K []))%nat ->
+  kfl_term ws scale (set_nth_g d (set_nth k (nth k (nth d K []) 0 + h) (nth d K [])) K) - kfl_term ws scale K
+  == h * (scale * nth d (grad_prod (kfl_dots ws K)) 0 * nth k (nth d ws []) 0).
+Proof. intros HK Hw Hk. unfold kfl_term. rewrite kfl_dots_set_K by assumption.
+  assert (Hd : (d < length (kfl_dots ws K))%nat) by (rewrite kfl_dots_length; lia).
+  assert (E : scale * prod (set_nth d (dot (nth d ws []) (set_nth k (nth k (nth d K []) 0 + h) (nth d K []))) (kfl_dots ws K))
+              - scale * prod (kfl_dots ws K)
+              == scale * (prod (set_nth d (dot (nth d ws []) (set_nth k (nth k (nth d K []) 0 + h) (nth d K []))) (kfl_dots ws K))
+                          - prod (kfl_dots ws K))) by ring.
+  rewrite E, prod_replace by exact Hd. rewrite kfl_dots_nth by assumption.
+  rewrite dot_set_nth by exact Hk. ring. Qed.
+
+Lemma kfl_term_scale_gradient ws scale K h :
+  kfl_term ws (scale + h) K - kfl_term ws scale K == h * prod (kfl_dots ws K).
+Proof. unfold kfl_term. ring. Qed.
+
+(* inputs: wherever the 1-D interpolation weights of dimension d move affinely
+   with the input, w_d(x + h) = w_d(x) + h * dw *)
+Lemma dot_axpy h w : forall dw K, length w = length dw ->
+  dot (map2 (fun a s => a + h * s) w dw) K == dot w K + h * dot dw K.
+Proof. induction w as [|a w IH]; intros [|s dw] K H; cbn in H; try discriminate; cbn [map2 dot]. ring.
+  destruct K as [|k K]; cbn [dot]. ring. rewrite IH by congruence. ring. Qed.
+Lemma kfl_term_input_gradient ws scale K d dw h :
+  (d < length K)%nat -> (d < length ws)%nat -> length (nth d ws []) = length dw ->
+  kfl_term (set_nth_g d (map2 (fun a s => a + h * s) (nth d ws []) dw) ws) scale K - kfl_term ws scale K
+  == h * (scale * nth d (grad_prod (kfl_dots ws K)) 0 * dot dw (nth d K [])).
+Proof. intros HK Hw Hl. unfold kfl_term. rewrite kfl_dots_set_ws by assumption.
+  assert (Hd : (d < length (kfl_dots ws K))%nat) by (rewrite kfl_dots_length; lia).
+  set (v := dot (map2 (fun a s => a + h * s) (nth d ws []) dw) (nth d K [])).
+  assert (E : scale * prod (set_nth d v (kfl_dots ws K)) - scale * prod (kfl_dots ws K)
+              == scale * (prod (set_nth d v (kfl_dots ws K)) - prod (kfl_dots ws K))) by ring.
+  rewrite E, prod_replace by exact Hd. rewrite kfl_dots_nth by assumption. unfold v.
+  rewrite dot_axpy by exact Hl. ring. Qed.
+
+(* slope of the hat weights inside a cell [j, j+1] *)
+Lemma qnat_lt k j : (k < j)%nat -> qnat k + 1 <= qnat j.
+Proof. intros H. unfold qnat. assert (E : 1 == inject_Z 1) by reflexivity. rewrite E, <- inject_Z_plus, <- Zle_Qle. lia. Qed.
+Definition hat_slope (j k : nat) : Q := if Nat.eqb k j then -(1) else if Nat.eqb k (S j) then 1 else 0.
+Lemma hat_affine_in_cell j x h k : qnat j <= x -> x <= qnat j + 1 -> qnat j <= x + h -> x + h <= qnat j + 1 ->
+  hat (x + h) k - hat x k == h * hat_slope j k.
+Proof. intros H1 H2 H3 H4. unfold hat, hat_slope.
+  destruct (Nat.eqb k j) eqn:E1. apply Nat.eqb_eq in E1. subst k. qcases; lra.
+  destruct (Nat.eqb k (S j)) eqn:E2. apply Nat.eqb_eq in E2. subst k. rewrite qnat_S. qcases; lra.
+  apply Nat.eqb_neq in E1. apply Nat.eqb_neq in E2.
+  destruct (Nat.lt_ge_cases k j) as [Hlt|Hge].
+  - pose proof (qnat_lt k j Hlt). qcases; lra.
+  - assert (Hgt : (S j < k)%nat) by lia. pose proof (qnat_lt (S j) k Hgt) as Hq. rewrite qnat_S in Hq. qcases; lra. Qed.
+
+(* the whole output: bias + mean over terms *)
+Lemma qsum_map2_set_g {B} (f : Q -> B -> Q) (db : B) a : forall b t v, (t < length a)%nat -> (t < length b)%nat ->
+  qsum (map2 f a (set_nth_g t v b)) == qsum (map2 f a b) + (f (nth t a 0) v - f (nth t a 0) (nth t b db)).
+Proof. induction a as [|x a IH]; intros [|y b] [|t] v Ha Hb; cbn in Ha, Hb; try lia; cbn [set_nth_g map2 qsum nth].
+  ring. rewrite IH by lia. ring. Qed.
+Lemma qsum_map2_set_l {B} (f : Q -> B -> Q) (db : B) a : forall b t v, (t < length a)%nat -> (t < length b)%nat ->
+  qsum (map2 f (set_nth t v a) b) == qsum (map2 f a b) + (f v (nth t b db) - f (nth t a 0) (nth t b db)).
+Proof. induction a as [|x a IH]; intros [|y b] [|t] v Ha Hb; cbn in Ha, Hb; try lia; cbn [set_nth map2 qsum nth].
+  ring. rewrite IH by lia. ring. Qed.
+
+Lemma kfl_out_kernel_gradient ws bias scales Ks t d k h :
+  (t < length scales)%nat -> (t < length Ks)%nat -> (d < length (nth t Ks []))%nat -> (d < length ws)%nat ->
+  (k < length (nth d (nth t Ks []) []))%nat -> (k < length (nth d ws []))%nat ->
+  kfl_out ws bias scales
+    (set_nth_g t (set_nth_g d (set_nth k (nth k (nth d (nth t Ks []) []) 0 + h) (nth d (nth t Ks []) [])) (nth t Ks [])) Ks)
+  - kfl_out ws bias scales Ks
+  == h * nth k (nth d (kfl_grad_kernel ws (length scales) (nth t scales 0) (nth t Ks [])) []) 0.
+Proof. intros Ht HtK Hd Hdw Hk Hkw. unfold kfl_out.
+  rewrite (qsum_map2_set_g (kfl_term ws) []) by assumption.
+  unfold kfl_grad_kernel.
+  rewrite (nth_map2 _ _ _ _ 0 [] []).
+  2:{ rewrite grad_prod_length, kfl_dots_length. lia. } 2:{ exact Hdw. }
+  rewrite nth_map_Q by exact Hkw. rewrite Qred_correct.
+  set (D := kfl_term ws (nth t scales 0) _ - kfl_term ws (nth t scales 0) _).
+  assert (ED : D == h * (nth t scales 0 * nth d (grad_prod (kfl_dots ws (nth t Ks []))) 0 * nth k (nth d ws []) 0))
+    by (apply kfl_term_kernel_gradient; assumption).
+  unfold Qdiv. rewrite ED. ring. Qed.
+
+Lemma kfl_out_scale_gradient ws bias scales Ks t h : (t < length scales)%nat -> (t < length Ks)%nat ->
+  kfl_out ws bias (set_nth t (nth t scales 0 + h) scales) Ks - kfl_out ws bias scales Ks
+  == h * kfl_grad_scale ws (length scales) (nth t Ks []).
+Proof. intros Ht HtK. unfold kfl_out, kfl_grad_scale. rewrite set_nth_length.
+  rewrite (qsum_map2_set_l (kfl_term ws) []) by assumption.
+  set (D := kfl_term ws (nth t scales 0 + h) _ - kfl_term ws (nth t scales 0) _).
+  assert (ED : D == h * prod (kfl_dots ws (nth t Ks []))) by apply kfl_term_scale_gradient.
+  unfold Qdiv. rewrite ED. ring. Qed.
+
+(* satisfiability of the hypotheses used above *)
+Example lattice_point_ok_sat : lattice_point_ok false [2%nat; 3%nat] [1#2; 3#2].
+Proof. unfold lattice_point_ok. constructor; [|constructor; [|constructor]];
+  (split; [lia|right; split; unfold qnat, Qle; cbn; lia]). Qed.
+Example hat_cell_sat : qnat 1 <= (5#4) /\ (5#4) <= qnat 1 + 1 /\ qnat 1 <= (5#4) + (1#4) /\ (5#4) + (1#4) <= qnat 1 + 1.
+Proof. unfold qnat, Qle; cbn; lia. Qed.
+
+Lemma simplex_weights_nth clip sizes x v : (v < num_vertices sizes)%nat ->
+  nth v (simplex_weights clip sizes x) 0 == sp_weight (simplex_sparse clip sizes x) (Z.of_nat v).
+Proof. intros H. unfold simplex_weights. rewrite nth_map_seq by exact H. apply Qred_correct. Qed.
+
+(* The guard lattice_point_ok is needed: with clip_inputs = False and a point
+   outside the lattice range, the 2^d shortcut extrapolates ([1 - x, x], a
+   negative weight) and the general path loses mass (weights sum to < 1). *)
+Lemma unclipped_outside_negative :
+  exists sizes x, ~ lattice_point_ok false sizes x /\
+    exists a, In a (hyper_weights false false sizes x) /\ a < 0.
+Proof. exists [2%nat], [3#2]. split.
+  - intros H. inversion H as [|s xi ss xx [_ [Hc|[_ Hr]]] Ht]; subst. discriminate.
+    vm_compute in Hr. apply Hr. reflexivity.
+  - exists (-1#2). split. vm_compute. left; reflexivity. reflexivity. Qed.
+Lemma unclipped_outside_mass_lost :
+  exists sizes x, ~ lattice_point_ok false sizes x /\
+    forall as_list, qsum (hyper_weights false as_list sizes x) == 1#2.
+Proof. exists [3%nat], [5#2]. split.
+  - intros H. inversion H as [|s xi ss xx [_ [Hc|[_ Hr]]] Ht]; subst. discriminate.
+    vm_compute in Hr. apply Hr. reflexivity.
+  - intros [|]; vm_compute; reflexivity. Qed.
